@@ -48,23 +48,58 @@
 ; The documented matching rule of VerifyHostname / matchHostnames: one trailing dot is ignored on
 ; pattern and host; both must then be non-empty, have the same number of dot-separated labels,
 ; and every pattern label is "*" or equals the corresponding host label.
+; hn_match is introduced by its defining equivalence instead of a define-fun, triggered only
+; where a term hn_match(p, h) occurs together with some split at '.' (nparts q '.': that is, in
+; the proof of matchHostnames; q is otherwise unused): callers of matchHostnames
+; (VerifyHostname) then reason about hn_match(p, h) as an atom. The define-fun with the same body is
+; the witness that the axiom is a definitional extension.
 ;; spec hn_match (p string, h string) bool
-(define-fun hn_match ((p Str) (h Str)) Bool (and
+(declare-fun hn_match (Str Str) Bool)
+(assert (forall ((p Str) (h Str) (q Str)) (! (= (hn_match p h) (and
   (bvsge (str_len (trim1 p #x2e)) #x0000000000000001)
   (bvsge (str_len (trim1 h #x2e)) #x0000000000000001)
   (= (nparts (trim1 p #x2e) #x2e) (nparts (trim1 h #x2e) #x2e))
   (forall ((k (_ BitVec 64))) (=> (and (bvsle #x0000000000000000 k) (bvslt k (nparts (trim1 p #x2e) #x2e)))
       (or (= (part (trim1 p #x2e) #x2e k) (mkStr #x0000000000000001 (store zero8arr #x0000000000000000 #x2a)))
-          (= (part (trim1 p #x2e) #x2e k) (part (trim1 h #x2e) #x2e k)))))))
+          (= (part (trim1 p #x2e) #x2e k) (part (trim1 h #x2e) #x2e k))))))) :pattern ((hn_match p h) (nparts q #x2e)))))
 ; The ASCII lower-casing of a whole string (RFC 6125 6.4.1): same length, byte i is lc(s[i]).
+; (A declared function with its defining equation, not a define-fun: two applications to equal
+; arguments are then equal by congruence; a macro-expanded array lambda is not.)
 ;; spec lower (s string) string
-(define-fun lower ((s Str)) Str (mkStr (str_len s) (lambda ((i (_ BitVec 64))) (ite (bvult i (str_len s)) (lc (select (str_arr s) i)) #x00))))
-; Names for the result of net.ParseIP(s): whether s is a textual IP address, and the length and
-; bytes of the parsed address. Uninterpreted (the textual syntax of IP addresses is not modelled);
-; they make the result of ParseIP a function of its argument that postconditions can refer to.
+(declare-fun lower (Str) Str)
+(assert (forall ((s Str)) (! (= (lower s) (mkStr (str_len s) (lambda ((i (_ BitVec 64))) (ite (bvult i (str_len s)) (lc (select (str_arr s) i)) #x00)))) :pattern ((lower s)))))
+; Names for the result of net.ParseIP(s): whether s is a textual IP address (ip_literal), and the
+; parsed address as a string of bytes (ip_val: the 4 or 16 bytes of the returned net.IP, in
+; the canonical form of keystr, /verif/specs/certpool.smt2). Uninterpreted (the textual syntax
+; of IP addresses is not modelled); they make the result of ParseIP a function of its argument
+; that postconditions can refer to.
 ;; spec ip_literal (s string) bool
 (declare-fun ip_literal (Str) Bool)
-;; spec ip_len (s string) int
-(declare-fun ip_len (Str) (_ BitVec 64))
-;; spec ip_at (s string, i int) uint8
-(declare-fun ip_at (Str (_ BitVec 64)) (_ BitVec 8))
+;; spec ip_val (s string) string
+(declare-fun ip_val (Str) Str)
+; net.IP.Equal's documented rule on two addresses given as byte strings: "Equal reports whether
+; ip and x are the same IP address. An IPv4 address and that same address in IPv6 form are
+; considered to be equal." IPv6 form of a.b.c.d = ::ffff:a.b.c.d (RFC 4291 2.5.5.2):
+; ip_v4in6(x, y): x has 16 bytes 00 (x10) ff ff y0 y1 y2 y3 and y has the 4 bytes y0..y3.
+(define-fun ip_v4in6 ((x Str) (y Str)) Bool (and (= (str_len x) #x0000000000000010) (= (str_len y) #x0000000000000004)
+  (= (select (str_arr x) #x0000000000000000) #x00) (= (select (str_arr x) #x0000000000000001) #x00)
+  (= (select (str_arr x) #x0000000000000002) #x00) (= (select (str_arr x) #x0000000000000003) #x00)
+  (= (select (str_arr x) #x0000000000000004) #x00) (= (select (str_arr x) #x0000000000000005) #x00)
+  (= (select (str_arr x) #x0000000000000006) #x00) (= (select (str_arr x) #x0000000000000007) #x00)
+  (= (select (str_arr x) #x0000000000000008) #x00) (= (select (str_arr x) #x0000000000000009) #x00)
+  (= (select (str_arr x) #x000000000000000a) #xff) (= (select (str_arr x) #x000000000000000b) #xff)
+  (= (select (str_arr x) #x000000000000000c) (select (str_arr y) #x0000000000000000))
+  (= (select (str_arr x) #x000000000000000d) (select (str_arr y) #x0000000000000001))
+  (= (select (str_arr x) #x000000000000000e) (select (str_arr y) #x0000000000000002))
+  (= (select (str_arr x) #x000000000000000f) (select (str_arr y) #x0000000000000003))))
+; Equal byte strings (same length, same bytes; both in canonical form), or one is the IPv6 form
+; of the other.
+;; spec ip_same (a string, b string) bool
+(define-fun ip_same ((a Str) (b Str)) Bool (or (= a b) (ip_v4in6 a b) (ip_v4in6 b a)))
+; "IP addresses may be written in [ ]" (VerifyHostname): s with one pair of enclosing square
+; brackets removed, i.e. s[1:len(s)-1] when len(s) >= 3, s[0] = '[' and s[len(s)-1] = ']',
+; otherwise s itself. Bytes beyond the length are zero (canonical form of govc's substrings).
+; (Declared function with defining equation, as for lower.)
+;; spec unbracket (s string) string
+(declare-fun unbracket (Str) Str)
+(assert (forall ((s Str)) (! (= (unbracket s) (ite (and (bvsge (str_len s) #x0000000000000003) (= (select (str_arr s) #x0000000000000000) #x5b) (= (select (str_arr s) (bvsub (str_len s) #x0000000000000001)) #x5d)) (mkStr (bvsub (str_len s) #x0000000000000002) (lambda ((i (_ BitVec 64))) (ite (bvult i (bvsub (str_len s) #x0000000000000002)) (select (str_arr s) (bvadd i #x0000000000000001)) #x00))) s)) :pattern ((unbracket s)))))
